@@ -101,7 +101,11 @@ class SpecArray(object):
             if dirs.size < 2:
                 return 1.0
             gaps = np.append(np.diff(dirs), dirs[0] + 360 - dirs[-1])
-            return abs(float(gaps[gaps > 0].min()))
+            # directions that differ by rounding only (0 and 360 after a rotation) are one bin
+            gaps = gaps[gaps > 1e-6]
+            if gaps.size == 0:
+                return 1.0
+            return abs(float(gaps.min()))
         else:
             return 1.0
 
